@@ -3,6 +3,7 @@ import importlib
 
 GROUPS = {
     "C01": "bulkhead", "C07": "bulkhead",
+    "C03": "circuit", "C04": "circuit", "C09": "circuit",
 }
 
 
